@@ -33,6 +33,15 @@ Theorem C10_table :
     length all_secret_tys = 10%nat.
 Proof. intros []; repeat constructor. Qed.
 
+(* no secret type, with or without the feature, implements any trait through which generic code
+   could read, order, copy or conjure its contents (validated by the trait-surface probes) *)
+Theorem C10_surface :
+  forall timing t tr, In tr revealing_traits -> impls t tr timing = false.
+Proof.
+  intros timing t tr H. unfold revealing_traits in H. cbn [In] in H.
+  repeat (destruct H as [<-|H]; [reflexivity|]). contradiction.
+Qed.
+
 Example C10_example :
   render false 0 (DStruct (s2b "R") [(s2b "a", DSecret (s2b "AccessToken") (s2b "hunter2"));
                                      (s2b "b", DTuple (s2b "Some") [DList [DStr (s2b "x")]])])
